@@ -883,6 +883,12 @@ fn main() {
         } else if u == 6 {
             parsed_extremes(acc);
             long_inputs(acc);
+            // long format strings: many items, long literals, long runs of flags and of white space
+            for n in (1..=300usize).chain(65_534..=65_538) {
+                for f in ["%Y".repeat(n), "a".repeat(n), format!("%{}Y", "0".repeat(n)), format!("%Y{}%m", " ".repeat(n)), "%".repeat(n), format!("%.{}f", "9".repeat(n)), "\u{e9}".repeat(n), format!("%{}z", ":".repeat(n))] {
+                    every_format(acc, &f, &dtf);
+                }
+            }
         } else if u < 7 + nsp {
             let mut n = 0u64;
             strings_upto(STR_ALPHA, slen, (u - 7) as usize, nsp as usize, &mut |s| {
